@@ -24,6 +24,7 @@ func runC16(c *Ctx) {
 	R.Rule("stack-end", "Push appends; Pop and Peek read index len-1 of the slice as loaded before any write; Pop truncates to [:len-1]", 3)
 	R.Rule("empty-guard", "empty (or nil) containers yield (zero,false) on a path without any state change", 4)
 	R.Rule("len", "Queue.Len delegates to the list's Len", 1)
+	runC06On(c, "list/", []string{"container/list"}, 20)
 	R.Rule("no-extra-state", "Queue holds nothing but the List (no side storage that could reorder or resurrect elements)", 1)
 
 	listField := c.P.FieldOf("lists", "Queue", "list")
